@@ -81,6 +81,15 @@ def run(c):
         else:
             links[p]["weights"] = [fhex(v) for v in np.asarray(tr["bspl_w_" + p]["value"], np.float64)]
             links[p]["dmat"] = [[fhex(v) for v in row] for row in np.asarray(mb.dmat_bands, np.float64)]
+        # the DECLARED range of a linked parameter: the user's entry if given, else the model's default
+        declared = (c.get("user_range") or {}).get(p)
+        if declared is not None:
+            got = mb.linked_params_range.get(p)
+            if got is None or abs(float(got[0]) - declared[0]) > 1e-6 or abs(float(got[1]) - declared[1]) > 1e-6:
+                out["oracle"].append("user-declared range %r of linked %s is not the range in use (%r)" % (declared, p, None if got is None else [float(got[0]), float(got[1])]))
+            for v in per_band:
+                if not (declared[0] - 1e-5 * (1 + abs(declared[0])) <= v <= declared[1] + 1e-5 * (1 + abs(declared[1]))):
+                    out["oracle"].append("linked %s = %r outside its user-declared range %r" % (p, v, declared))
         if p in mb.linked_params_range:
             lo, hi = mb.linked_params_range[p]
             for v in per_band:
